@@ -1,6 +1,7 @@
 import FitProps.EndToEndLemmas
 import FitProps.EndToEndDescLemmas
 import FitProps.EndToEndBackLemmas
+import FitProps.EndToEndStrictLemmas
 import FitModel.ValidatorArith
 /-!
 # C01 — Encode then decode returns the messages that were written (END TO END: protocol values, the real validator)
@@ -23,7 +24,8 @@ model returns the interpretation of the same items), the C06 lemmas at the value
 PROPERTY THEOREMS: C01_e2e_actual, C01_e2e_roundtrip_partial, C01_e2e_reencode_partial, C01_e2e_retained,
 C01_e2e_dec_output_normal, C01_e2e_reencode, C01_e2e_reencode_normal, C01_e2e_full_fails_arr, C01_e2e_full_fails_zero,
 C01_e2e_full_fails_fffd, C01_e2e_reencode_fails_undersized, C01_e2e_reencode_fails_pieces, C01_e2e_reencode_fails_f64dev,
-C01_e2e_reencode_boolarr_roundtrip, C01_e2e_value_independent_of_byte_order
+C01_e2e_reencode_boolarr_roundtrip, C01_e2e_value_independent_of_byte_order, C01_e2e_roundtrip_strict_partial,
+C01_e2e_full_fails_emptystr, C01_e2e_norm_bool_witness
 
 Findings of the pinned tree (open, see known_findings.jsonl): KF-C01-arr (F03), KF-C01-zero (F04), KF-C01-fffd (F02): the
 full statement `C01_e2e_roundtrip_full` is false on them (`C01_e2e_full_fails_*`); `C01_e2e_roundtrip_partial` excludes
@@ -717,6 +719,88 @@ theorem C01_e2e_wire_chain (tsKnown : Nat → Bool) (chk : Bool) (c : Cfg) (o : 
 hypothesis; what the validator retained satisfies `msgsDescOK` (evaluated) -/
 example : keysKnown exFac = true ∧
     ((encodeChain exCfg exFiles 0).1.all fun kept => Wire.msgsDescOK [] (kept.map (toWire exCfg.w.arch))) = true := by
+  decide +kernel
+
+/-! ### the normal form, rule by rule: what is a limit of the wire and what is decoder behaviour (audit C01-3) -/
+
+/-- **ROUND TRIP WITHOUT RULE (c)'s DROPPING OF EMPTY STRINGS (partial: a fourth class, KF-C01-emptystr).** Under the
+hypotheses of `C01_e2e_roundtrip_partial`, when moreover no retained string value read in array mode holds an EMPTY
+NUL-terminated segment (`kfEmpty`): every decoded sequence is the STRICT normal form of what validation retained
+(`strictValue`): string arrays come back with every one of their strings in place. The normal form of
+`C01_e2e_roundtrip_partial` (`normalValue`) identifies a string array with the array of its NON-EMPTY strings; that
+identification is the decoder's doing (the encoder writes the lone NUL of an empty string; `UnmarshalValue` skips it: "only
+if not an invalid string"), not something the wire forces — here it is an explicit class with a refuting witness
+(`C01_e2e_full_fails_emptystr`) instead of a rule of the normal form. -/
+theorem C01_e2e_roundtrip_strict_partial (c : Cfg) (o : Fit.DecApi.Opts) (files : List FileIn) (kepts : List (List Message))
+    (bytes : List Nat) (henc : encodeChain c files 0 = (kepts, bytes, none)) (hne : files ≠ [])
+    (hc : CfgOK c files) (ho : PlainOpts o) (hdom : ∀ kept ∈ kepts, inDomain o.fac kept = true)
+    (hsmall : bytes.length < 4294967296) (hkf : ∀ kept ∈ kepts, noKF o.fac kept = true)
+    (hem : ∀ kept ∈ kepts, kfEmpty o.fac kept = false) :
+    ∃ seqs, decodeValues o bytes = (seqs, none) ∧
+      AllMatch (fun kept ns => seqMatches strictValue false o.fac c.w.arch {} kept ns = true) kepts seqs := by
+  obtain ⟨seqs, h1, h2⟩ := C01_e2e_roundtrip_partial c o files kepts bytes henc hne hc ho hdom hsmall hkf
+  refine ⟨seqs, h1, ?_⟩
+  clear h1 henc hdom hkf
+  induction h2 with
+  | nil => exact AllMatch.nil
+  | @cons a b as bs hab _ ih =>
+    exact AllMatch.cons (seqMatches_strict o.fac c.w.arch a {} b (hem a (by simp)) hab)
+      (ih (fun k hk => hem k (List.mem_cons_of_mem _ hk)))
+
+/-- the strict round trip at full strength -/
+def C01_e2e_roundtrip_strict_full : Prop :=
+  ∀ (c : Cfg) (o : Fit.DecApi.Opts) (files : List FileIn) (kepts : List (List Message)) (bytes : List Nat),
+    encodeChain c files 0 = (kepts, bytes, none) → files ≠ [] → CfgOK c files → PlainOpts o →
+    (∀ kept ∈ kepts, inDomain o.fac kept = true) → bytes.length < 4294967296 →
+    ∃ seqs, decodeValues o bytes = (seqs, none) ∧
+      AllMatch (fun kept ns => seqMatches strictValue false o.fac c.w.arch {} kept ns = true) kepts seqs
+
+/-- `["a", "", "b"]` in field_description.field_name (a string ARRAY of the profile) -/
+def emptyStrFiles : List FileIn :=
+  [{ msgs := [⟨206, [kf 0 0x02 (.uint8 0), kf 1 0x02 (.uint8 1), kf 2 0x02 (.uint8 2),
+                     kf 3 0x07 (.sliceString [[0x61], [], [0x62]]) true], []⟩] }]
+
+/-- **KF-C01-emptystr.** The valid string array `["a", "", "b"]` passes validation (one valid string suffices), is written
+as 61 00 00 62 00 — the lone NUL of the empty string IS on the wire — and decodes as `["a", "b"]`: "b" has moved from place 2
+to place 1. The message lies in none of the other three classes; `C01_e2e_roundtrip_partial` holds for it only because its
+normal form drops empty strings. -/
+theorem C01_e2e_full_fails_emptystr : ¬ C01_e2e_roundtrip_strict_full := by
+  intro h
+  have henc : encodeChain (kfCfg false) emptyStrFiles 0 =
+      ((encodeChain (kfCfg false) emptyStrFiles 0).1, (encodeChain (kfCfg false) emptyStrFiles 0).2.1, none) := by decide +kernel
+  obtain ⟨seqs, h1, h2⟩ := h (kfCfg false) exO emptyStrFiles _ _ henc (by decide) (kfCfg_ok false _ (by decide +kernel))
+    ⟨rfl, rfl, rfl, rfl⟩ (by decide +kernel) (by decide +kernel)
+  have hd : decodeValues exO (encodeChain (kfCfg false) emptyStrFiles 0).2.1 =
+      ([[⟨206, [⟨0, 2, .uint8 0⟩, ⟨1, 2, .uint8 1⟩, ⟨2, 2, .uint8 2⟩, ⟨3, 7, .sliceString [[0x61], [0x62]]⟩], []⟩]], none) := by
+    decide +kernel
+  rw [hd] at h1
+  simp only [Prod.mk.injEq, and_true] at h1
+  subst h1
+  have hk : (encodeChain (kfCfg false) emptyStrFiles 0).1 = [emptyStrFiles.head!.msgs] := by decide +kernel
+  rw [hk] at h2
+  cases h2 with
+  | cons hab _ => revert hab; decide +kernel
+
+/-- the witness: the bytes written hold the lone NUL; the message is in the class `kfEmpty` and in no other -/
+example : (encodeChain (kfCfg false) emptyStrFiles 0).2.1.drop 36 = [0x61, 0, 0, 0x62, 0, 163, 222] ∧
+    (∀ kept ∈ (encodeChain (kfCfg false) emptyStrFiles 0).1, kfEmpty exFac kept = true ∧ noKF exFac kept = true) := by decide +kernel
+
+def boolFac : Fit.DecApi.Factory := [⟨20, 4, ⟨true, 0x00, true, false, false, []⟩⟩]
+def boolO : Fit.DecApi.Opts := { chk := true, exp := false, fac := boolFac }
+def boolFiles : List FileIn :=
+  [{ msgs := [⟨20, [⟨some { num := 4, baseType := 0x00, nameKnown := true, profileBool := true }, .uint8 7, false⟩], []⟩] }]
+
+/-- **Rule (d) of the normal form, shown on the model (kept in the normal form: the documented meaning of `typedef.Bool`).** A
+field whose profile type is bool, handed to the encoder with the `uint8` 7 — valid for the validator, which judges by the base
+type enum — is written as the byte 07 and decodes as `typedef.Bool` 255 (`proto.Bool`: "If v > 1, it will be treated as
+typedef.BoolInvalid"): as a BOOL every byte above 1 is the invalid value, and the wire carries no type tag that could say
+"this byte is a uint8, not a bool". The normal form (`normalValue` = `scalarOf … isBool`) says exactly this; nothing a bool
+can express is lost. The message meets every hypothesis of `C01_e2e_roundtrip_partial`. -/
+theorem C01_e2e_norm_bool_witness :
+    (encodeChain (kfCfg false) boolFiles 0).1 = [boolFiles.head!.msgs] ∧
+    decodeValues boolO (encodeChain (kfCfg false) boolFiles 0).2.1 = ([[⟨20, [⟨4, 0, .bool 255⟩], []⟩]], none) ∧
+    normalValue 0x00 true false (.uint8 7) = .bool 255 ∧ normalValue 0x00 true false (.uint8 1) = .bool 1 ∧
+    (∀ kept ∈ (encodeChain (kfCfg false) boolFiles 0).1, inDomain boolFac kept = true ∧ noKF boolFac kept = true) := by
   decide +kernel
 
 /-! ### the value layer, stated on its own -/
